@@ -378,6 +378,9 @@ fn judge_out(case: &OutCase, stats: &mut Stats) -> CaseResult {
     if case.fill > 0 {
         stats.class("out:behind-enqueued-message");
     }
+    if case.fill + 2 * STEP + 40 >= l && case.fill > 0 {
+        stats.class("out:queue-already-within-two-steps-of-the-limit");
+    }
     let Some(msg) = msg_of_len(case.kind, case.len) else {
         return Ok(());
     };
@@ -550,7 +553,7 @@ fn small_cases(ctx: &Ctx) -> Vec<Case> {
         v.push(Case::In(InCase { build: b.clone(), size, chunk, prefix_frames, terminated: true, eof: true, abandon_at: None }));
     }
     // outbound from an empty queue
-    let kinds = [MsgKind::CallEcho, MsgKind::ReplyOpt, MsgKind::ErrWorse, MsgKind::ReplyValue, MsgKind::CallPut];
+    let kinds = [MsgKind::CallEcho, MsgKind::ReplyOpt, MsgKind::ErrWorse, MsgKind::ReplyValue, MsgKind::CallPut, MsgKind::ReplyShapes];
     for len in 1..=l + 2 * STEP {
         let r = len % STEP;
         let near = r <= 3 || r >= STEP - 3 || len + 600 >= l;
@@ -575,6 +578,22 @@ fn small_cases(ctx: &Ctx) -> Vec<Case> {
                 if total % 4 == 0 && total > l {
                     v.push(Case::Out(OutCase { build: b.clone(), fill, len: l + (total % 300), kind, send: true, history: vec![] }));
                 }
+            }
+        }
+    }
+    // a queue that already reaches to within two steps of the limit: a further small call is
+    // accepted exactly when it still fits
+    let base = Msg::Ok { kind: MsgKind::CallEcho, flags: BASE_FLAGS, pad: 0 }.encoded_len().unwrap_or(64);
+    for fill in l.saturating_sub(2 * STEP + 40)..=l.saturating_sub(base + 1) {
+        if !thorough && fill % 3 != 0 && fill + STEP + 4 < l {
+            continue;
+        }
+        let mut totals: Vec<usize> = vec![fill + base + 1, fill + base + 2, l - 2, l - 1, l + 1, l + 2, l + 40];
+        totals.sort_unstable();
+        totals.dedup();
+        for total in totals {
+            if total > fill + base {
+                v.push(Case::Out(OutCase { build: b.clone(), fill, len: total - fill - 1, kind: MsgKind::CallEcho, send: total % 2 == 0 && total % 3 == 0, history: vec![] }));
             }
         }
     }
